@@ -1717,4 +1717,3 @@ package cache
 //@   ensures [C01.new.locks] result.keyLocks != nil && len(result.keyLocks) == 0
 //@   oncall NewShardedMapOf [C05.new.errttl] f.backend != nil ==> len(callarg0) == 1
 //@       && boundRecv(callarg0[0], "(Config).Use").TimeToLive == cfg.FailedUpdateTTL
-
